@@ -4,7 +4,7 @@ import os
 import shutil
 import vlib
 
-PROPS = ['Rangers.Props.C19']
+PROPS = ['Rangers.Props.C19', 'Rangers.Props.C19Facts']
 DRIVERS = ['C19']
 META = dict(
     level='proof',
@@ -14,6 +14,16 @@ META = dict(
     rule='distinct op lines sent to both implementation and model whose model answer is neither bad-op nor unmodelled',
     explanation='',
 )
+
+
+def gen(ctx):
+    """T-gen: re-extract the write discipline of save/remove/AddGroup and the writer/caller
+    inventory from src/core/*.go of the working tree into Generated/GroupChainFacts.lean."""
+    rc, so, se = vlib.go_run_gen(ctx, 'c19facts', ['repo=' + ctx.repo])
+    if rc != 0 or 'namespace Rangers.Generated.GroupChainFacts' not in so:
+        return dict(ok=False, error='c19facts failed: ' + (se or so)[-800:])
+    changed = vlib.write_if_changed(os.path.join(vlib.LEAN, 'Rangers', 'Generated', 'GroupChainFacts.lean'), so)
+    return dict(ok=True, changed=changed, facts=so.count('\n  "'))
 
 
 def _viols(stats):
